@@ -18,6 +18,13 @@ ObsCount(e) == LET RECURSIVE sum(_)
                IN sum(1)
 ObsSet(e) == UNION {SeqSet(e.st[j][2]) : j \in DOMAIN e.st}
 
+\* a bin without repeated peers (the model never has any; a resynchronised state may)
+RECURSIVE DedupSeq(_)
+DedupSeq(q) == IF q = <<>> THEN <<>>
+               ELSE LET r == DedupSeq(SubSeq(q, 1, Len(q) - 1))
+                    IN IF q[Len(q)] \in SeqSet(r) THEN r ELSE Append(r, q[Len(q)])
+Dedup(bs) == [b \in DOMAIN bs |-> DedupSeq(bs[b])]
+
 \* did the at-th callback of an updating iteration happen
 UpdHappens(e, s) == e.at <= Total(s)
 
@@ -27,7 +34,7 @@ Post(e, m, s) ==
     [] e.op = "add"     -> AddAll(m, s, e.ps)
     [] e.op = "remove"  -> RemoveOne(m, s, e.p)
     [] e.op = "iterupd" -> IF UpdHappens(e, s) THEN ApplyUpd(m, s, e.upd) ELSE s
-    [] e.op = "conc"    -> ApplyUpd(m, s, e.upd)
+    [] e.op = "conc"    -> ApplyUpd(m, Dedup(s), e.upd)     \* runs on a fresh slice filled with the current SET
     [] OTHER            -> s
 
 \* no peer is visited more often than it is stored (at most once: the model never stores a peer
